@@ -75,8 +75,8 @@ def rule_text(c, prog, R="C17.text"):
                 c.ok(R, inst)
         if ty.endswith("UniqueId"):
             # widths: {:016x}{:08x}{:08x} <-> [0..16] [16..24] [24..32]
-            rngs = [p[2] for p in parsed]
-            if rngs == [(0, 16), (16, 24), (24, 32)] and all(p[1] == 16 for p in parsed):
+            rngs = sorted(p[2] for p in parsed if p[2] is not None)
+            if rngs == [(0, 16), (16, 24), (24, 32)] and len(parsed) == 3 and all(p[1] == 16 for p in parsed):
                 c.ok(R, f"{ty}:slices")
             else:
                 c.violation(R, f"{ty}|slices", f"UniqueId::from_str slices {rngs} with radices {[p[1] for p in parsed]}; expected [0..16],[16..24],[24..32] radix 16", frm.sp, instance=f"{ty}:slices")
@@ -84,14 +84,34 @@ def rule_text(c, prog, R="C17.text"):
             lits = [x["lit"].get("v") for x in core.walk_fn(disp) if x.get("k") == "Lit" and x["lit"]["lk"] == "str"]
             # field order: random, time, index
             order = [core.place_root(a)[1][-1:] for k, a in fa if k == "new_lower_hex"]
-            porder = []
+            # which slice feeds which field (through hoisted lets; the order of fields in the struct literal is irrelevant)
+            lets = {st["pat"].get("lid"): st["init"] for st in core.walk_lets(frm.body) if "init" in st and st["pat"].get("k") == "Binding"}
+
+            def slice_of(e, depth=0):
+                for x in core.walk(e):
+                    if x.get("k") == "Call" and re.match(r"core::num::<impl (\w+)>::from_str_radix", core.callee(x) or ""):
+                        a = core.strip(x["args"][0])
+                        if a.get("k") == "Index":
+                            r = core.strip(a["r"])
+                            if r.get("k") == "Struct":
+                                f = {q["f"]: core.lit_value(q["e"]) for q in r["fields"]}
+                                return (f.get("start"), f.get("end"))
+                    if x.get("k") == "Path" and x.get("res") == "local" and x.get("lid") in lets and depth < 4:
+                        r = slice_of(lets[x["lid"]], depth + 1)
+                        if r is not None:
+                            return r
+                return None
+            fmap = {}
             for x in core.walk_fn(frm):
                 if x.get("k") == "Struct" and (x.get("def") or "").endswith("UniqueId"):
-                    porder = [f["f"] for f in x["fields"]]
-            if [o[0] for o in order if o] == ["random", "time", "index"] and porder[:3] == ["random", "time", "index"]:
+                    for f in x["fields"]:
+                        fmap[f["f"]] = slice_of(f["e"])
+            printed = [o[0] for o in order if o]
+            want_ranges = [(0, 16), (16, 24), (24, 32)]
+            if printed == ["random", "time", "index"] and [fmap.get(f) for f in printed] == want_ranges:
                 c.ok(R, f"{ty}:field-order")
             else:
-                c.violation(R, f"{ty}|order", f"UniqueId text form: printed order {order}, parsed order {porder}", disp.sp, instance=f"{ty}:field-order")
+                c.violation(R, f"{ty}|order", f"UniqueId text form: fields are printed in the order {printed} (16, 8, 8 hex digits) but from_str fills {fmap}: a field is parsed from another field's digits", disp.sp, instance=f"{ty}:field-order")
 
 
 SER_DE = {
@@ -281,12 +301,38 @@ def rule_names(c, prog):
     def zero_sep(v):
         return v == 0 or v == "\0" or v == (0,) or v == b"\0"
     chain = [x["m"] for x in core.walk_fn(dec) if x.get("k") == "MethodCall"]
-    allowed = {"split", "filter", "map", "collect", "into", "is_empty", "to_vec", "to_owned", "into_iter", "iter"}
-    extra = [m for m in chain if m not in allowed]
-    if not extra:
+    # operations that drop, duplicate or reorder elements of the decoded list (the list must be exactly the non-empty
+    # NUL-separated pieces, in order): a closed list of the std adaptors / Vec methods that do so
+    REORDER = {"dedup", "dedup_by", "dedup_by_key", "sort", "sort_by", "sort_by_key", "sort_unstable", "sort_unstable_by", "sort_unstable_by_key", "rev", "reverse",
+               "take", "skip", "step_by", "take_while", "skip_while", "truncate", "pop", "remove", "swap", "swap_remove", "retain", "retain_mut", "drain", "last", "nth",
+               "first", "chunks", "windows", "splitn", "rsplit", "rsplitn", "split_once", "rotate_left", "rotate_right", "insert", "filter_map", "flat_map", "find",
+               "map_while", "scan", "fuse", "peekable", "cycle", "chain", "zip", "unzip", "partition", "max", "min", "clear", "split_off", "resize"}
+    extra = [m for m in chain if m in REORDER]
+    # the only test that may drop a piece is `is_empty()`
+    tests = []
+    for x in core.walk_fn(dec):
+        if x.get("k") == "If":
+            tests.append(x["c"])
+        if x.get("k") == "MethodCall" and x["m"] == "filter" and x["args"] and core.strip(x["args"][0]).get("k") == "Closure":
+            tests.append(core.strip(x["args"][0])["body"])
+        if x.get("k") == "Match" and x.get("src") == "Normal":
+            for arm in x["arms"]:
+                if "guard" in arm:
+                    tests.append(arm["guard"])
+
+    def only_is_empty(t):
+        t = core.strip(t)
+        while t.get("k") == "Block" and not t["b"]["stmts"] and "expr" in t["b"]:
+            t = core.strip(t["b"]["expr"])
+        if t.get("k") == "Unary" and t["op"] == "!":
+            return only_is_empty(t["e"])
+        return t.get("k") == "MethodCall" and t["m"] == "is_empty" and not t["args"]
+    bad_tests = [core.fingerprint(t, 4) for t in tests if not only_is_empty(t)]
+    has_core = "split" in chain and any((core.callee(x) or "").endswith("String::from_utf8") for x in core.walk_fn(dec) if x.get("k") in ("Call", "MethodCall"))
+    if not extra and not bad_tests and has_core:
         c.ok(R, "tags:decode-chain")
     else:
-        c.violation(R, "tags|decode|" + ",".join(sorted(set(extra))), f"Tags::decode applies {sorted(set(extra))} to the decoded list; decoding must be split-on-NUL / drop empties / from_utf8 only, otherwise members are lost or reordered (e.g. dedup drops a tag that appears twice in a row)", dec.sp, instance="tags:decode-chain")
+        c.violation(R, "tags|decode|" + ",".join(sorted(set(extra)) or (["test"] if bad_tests else ["shape"])), f"Tags::decode applies {sorted(set(extra))} / tests {bad_tests} on the decoded list; decoding must be split-on-NUL / drop empties / from_utf8 only, otherwise members are lost or reordered (e.g. dedup drops a tag that appears twice in a row)", dec.sp, instance="tags:decode-chain")
     echain = [x["m"] for x in core.walk_fn(enc) if x.get("k") == "MethodCall"]
     if set(echain) <= {"join", "into_bytes", "as_bytes", "to_vec", "iter"}:
         c.ok(R, "tags:encode-chain")
